@@ -2,6 +2,7 @@
   C19 — builders apply exactly the documented effect of each call, in any order.
 -/
 import CosetModel.Builders
+import CosetProofs.Roundtrip.SetOrder
 namespace Coset.Props.C19
 open Coset
 
@@ -165,6 +166,221 @@ theorem constructors (curve : Nat) (x y d kb : Bytes) (ys : Bool) :
 theorem key_types_named : Reg.keyType.toI64 Gen.idx_KeyType_EC2 = 2 ∧ Reg.keyType.toI64 Gen.idx_KeyType_Symmetric = 4 ∧
     Reg.keyType.toI64 Gen.idx_KeyType_OKP = 1 := by decide
 
+/-! ### invariants over every call sequence -/
+
+/-- a property kept by every successful call is kept by every call sequence. -/
+theorem runOps_inv {β ο : Type} (apply : β → ο → Step β) (Inv : β → Prop) (step : ∀ b o b', Inv b → apply b o = .next b' → Inv b') :
+    ∀ (ops : List ο) (b : β) (i : Nat) (b' : β), Inv b → (runOps apply ops b i).1 = .next b' → Inv b' := by
+  intro ops
+  induction ops with
+  | nil => intro b i b' hi hr; simp [runOps] at hr; subst hr; exact hi
+  | cons op ops ih =>
+    intro b i b' hi hr
+    simp only [runOps] at hr
+    cases hs : apply b op with
+    | next b1 => simp only [hs] at hr; exact ih b1 (i + 1) b' (step b op b1 hi hs) hr
+    | fail n => simp [hs] at hr
+    | panic s => simp [hs] at hr
+
+/-- a call sequence stops at the first call that panics or whose closure fails, and reports that call's index. -/
+theorem runOps_stops {β ο : Type} (apply : β → ο → Step β) (pre : List ο) (o : ο) (post : List ο) (b b1 : β) (i : Nat)
+    (hp : runOps apply pre b i = (.next b1, i + pre.length)) :
+    (∀ s, apply b1 o = .panic s → runOps apply (pre ++ o :: post) b i = (.panic s, i + pre.length)) ∧
+    (∀ n, apply b1 o = .fail n → runOps apply (pre ++ o :: post) b i = (.fail n, i + pre.length)) := by
+  induction pre generalizing b i with
+  | nil =>
+    simp [runOps] at hp; subst hp
+    exact ⟨fun s h => by simp [runOps, h], fun n h => by simp [runOps, h]⟩
+  | cons p ps ih =>
+    simp only [runOps] at hp
+    cases hs : apply b p with
+    | next b2 =>
+      simp only [hs] at hp
+      have := ih b2 (i + 1) (by rw [hp]; simp; omega)
+      constructor
+      · intro s h; simp only [List.cons_append, runOps, hs]; rw [this.1 s h]; simp; omega
+      · intro n h; simp only [List.cons_append, runOps, hs]; rw [this.2 n h]; simp; omega
+    | fail n => simp [hs] at hp
+    | panic s => simp [hs] at hp
+
+/-- the extra parameters of a built header never sit under a label reserved for a typed field (1..7), whatever the call sequence. -/
+def RestClean (h : Header) : Prop := ∀ p ∈ h.rest, ∀ l, p.1 = .int l → ¬ (1 ≤ l ∧ l ≤ 7)
+
+theorem header_rest_clean (ops : List HeaderOp) (h' : Header) (hr : (runOps HeaderOp.apply ops Header.default 0).1 = .next h') :
+    RestClean h' := by
+  refine runOps_inv HeaderOp.apply RestClean ?_ ops Header.default 0 h' (by simp [RestClean, Header.default]) hr
+  intro h op h1 hi hs
+  cases h with
+  | mk a c ct k i p cs r =>
+    cases op <;> simp [HeaderOp.apply, Header.setKeyId, Header.setAlg, Header.setCrit, Header.setContentType,
+      Header.setIv, Header.setPartialIv, Header.setCounterSignatures, Header.setRest] at hs <;>
+      (try (subst hs; simpa [RestClean] using hi))
+    case value l v =>
+      by_cases hg : headerValueReserved l = true
+      · simp [hg] at hs
+      · simp [hg] at hs; subst hs
+        intro q hq l' hl'
+        have hq' : q ∈ r ++ [(Label.int l, v)] := hq
+        rcases List.mem_append.mp hq' with hq | hq
+        · exact hi q hq l' hl'
+        · simp at hq; subst hq; simp at hl'; subst hl'
+          intro hc; exact hg ((header_value_guard l).mpr hc)
+    case textValue t v =>
+      subst hs
+      intro q hq l' hl'
+      have hq' : q ∈ r ++ [(Label.text t, v)] := hq
+      rcases List.mem_append.mp hq' with hq | hq
+      · exact hi q hq l' hl'
+      · simp at hq; subst hq; simp at hl'
+
+/-- `key_ops` is a set: after any call sequence it is strictly ascending (no repetition), and `add_key_op` inserts. -/
+theorem setInsert_total {α : Type} {cmp : α → α → Res Ordering} (ho : StrictOrd cmp) : ∀ (s : List α) (x : α),
+    (∃ r, setInsert cmp s x = .ok (some r)) ∨ (setInsert cmp s x = .ok none ∧ ∃ y ∈ s, cmp x y = .ok .eq) := by
+  intro s
+  induction s with
+  | nil => intro x; exact Or.inl ⟨[x], rfl⟩
+  | cons y ys ih =>
+    intro x
+    obtain ⟨o, hc⟩ := ho.total x y
+    cases o with
+    | lt => exact Or.inl ⟨x :: y :: ys, by simp [setInsert, hc]⟩
+    | eq => exact Or.inr ⟨by simp [setInsert, hc], y, by simp, hc⟩
+    | gt =>
+      rcases ih x with ⟨r, hr⟩ | ⟨hn, z, hz, hz'⟩
+      · exact Or.inl ⟨y :: r, by simp [setInsert, hc, hr]⟩
+      · exact Or.inr ⟨by simp [setInsert, hc, hn], z, by simp [hz], hz'⟩
+
+theorem key_add_op (k : CoseKey) (i : Nat) (hs : Asc (RegLabel.cmp Reg.keyOperation) k.keyOps) :
+    (∃ s, KeyOp.apply k (.addKeyOp i) = .next { k with keyOps := s } ∧ Asc (RegLabel.cmp Reg.keyOperation) s ∧
+      ∀ z, z ∈ s ↔ (z = .assigned i ∨ z ∈ k.keyOps)) ∨
+    (KeyOp.apply k (.addKeyOp i) = .next k ∧ ∃ y ∈ k.keyOps, RegLabel.cmp Reg.keyOperation (.assigned i) y = .ok .eq) := by
+  rcases setInsert_total (regLabel_strict Reg.keyOperation) k.keyOps (.assigned i) with ⟨r, hr⟩ | ⟨hn, hy⟩
+  · obtain ⟨h1, h2⟩ := setInsert_asc (regLabel_strict Reg.keyOperation) k.keyOps (.assigned i) r hs hr
+    exact Or.inl ⟨r, by simp [KeyOp.apply, hr], h1, h2⟩
+  · exact Or.inr ⟨by simp [KeyOp.apply, hn], hy⟩
+
+def KeyClean (k : CoseKey) : Prop :=
+  Asc (RegLabel.cmp Reg.keyOperation) k.keyOps ∧ ∀ p ∈ k.params, ∀ l, p.1 = .int l → ¬ (0 ≤ l ∧ l ≤ 5)
+
+theorem key_step_clean (k : CoseKey) (op : KeyOp) (k' : CoseKey) (hi : KeyClean k) (hs : KeyOp.apply k op = .next k') : KeyClean k' := by
+  cases op with
+  | kty t => simp [KeyOp.apply] at hs; subst hs; exact hi
+  | keyId b => simp [KeyOp.apply] at hs; subst hs; exact hi
+  | baseIv b => simp [KeyOp.apply] at hs; subst hs; exact hi
+  | keyType t => simp [KeyOp.apply] at hs; subst hs; exact hi
+  | algorithm a => simp [KeyOp.apply] at hs; subst hs; exact hi
+  | addKeyOp i =>
+    rcases key_add_op k i hi.1 with ⟨s, h1, h2, _⟩ | ⟨h1, _⟩
+    · rw [h1] at hs; cases hs; exact ⟨h2, hi.2⟩
+    · rw [h1] at hs; cases hs; exact hi
+  | param l v =>
+    by_cases hg : keyParamReserved l = true
+    · simp [KeyOp.apply, hg] at hs
+    · simp [KeyOp.apply, hg] at hs; subst hs
+      refine ⟨hi.1, ?_⟩
+      intro q hq l' hl'
+      simp only [List.mem_append, List.mem_singleton] at hq
+      rcases hq with hq | rfl
+      · exact hi.2 q hq l' hl'
+      · simp at hl'; subst hl'
+        intro hc; exact hg ((key_param_guard l).mpr hc)
+
+/-- every key built from a constructor by any call sequence: `key_ops` is a set and no extra parameter shadows a common parameter. -/
+theorem key_clean (ops : List KeyOp) (k0 k' : CoseKey) (h0 : KeyClean k0) (hr : (runOps KeyOp.apply ops k0 0).1 = .next k') : KeyClean k' :=
+  runOps_inv KeyOp.apply KeyClean key_step_clean ops k0 0 k' h0 hr
+
+theorem constructors_clean (curve : Nat) (x y d kb : Bytes) (ys : Bool) :
+    KeyClean (newEc2PubKey curve x y) ∧ KeyClean (newEc2PubKeyYSign curve x ys) ∧ KeyClean (newEc2PrivKey curve x y d) ∧
+    KeyClean (newSymmetricKey kb) ∧ KeyClean newOkpKey := by
+  obtain ⟨h1, h2, h3, h4, h5⟩ := constructors curve x y d kb ys
+  rw [h1, h2, h3, h4, h5]
+  refine ⟨?_, ?_, ?_, ?_, ?_⟩ <;> refine ⟨by simp [Asc], ?_⟩ <;> intro p hp l hl <;> simp at hp
+  · rcases hp with rfl | rfl | rfl <;> simp at hl <;> omega
+  · rcases hp with rfl | rfl | rfl <;> simp at hl <;> omega
+  · rcases hp with rfl | rfl | rfl | rfl <;> simp at hl <;> omega
+  · subst hp; simp at hl; omega
+
+/-- a built claims set: no extra claim under a name reserved for a typed claim (1..7), no private-use entry outside the private range. -/
+def ClaimsClean (c : ClaimsSet) : Prop :=
+  ∀ p ∈ c.rest, (∀ k, p.1 = .assigned k → ¬ (1 ≤ Reg.cwtClaimName.toI64 k ∧ Reg.cwtClaimName.toI64 k ≤ 7)) ∧
+    (∀ id, p.1 = .privateUse id → id < -65536)
+
+theorem claims_clean (ops : List ClaimsOp) (c' : ClaimsSet) (hr : (runOps ClaimsOp.apply ops ClaimsSet.default 0).1 = .next c') :
+    ClaimsClean c' := by
+  refine runOps_inv ClaimsOp.apply ClaimsClean ?_ ops ClaimsSet.default 0 c' (by simp [ClaimsClean, ClaimsSet.default]) hr
+  intro c op c1 hi hs
+  have app : ∀ (e : RegLabelPriv × Value), ((∀ k, e.1 = .assigned k → ¬ (1 ≤ Reg.cwtClaimName.toI64 k ∧ Reg.cwtClaimName.toI64 k ≤ 7)) ∧
+      (∀ id, e.1 = .privateUse id → id < -65536)) → ClaimsClean { c with rest := c.rest ++ [e] } := by
+    intro e he q hq
+    simp only [List.mem_append, List.mem_singleton] at hq
+    rcases hq with hq | rfl
+    · exact hi q hq
+    · exact he
+  cases op with
+  | issuer t => simp [ClaimsOp.apply] at hs; subst hs; exact hi
+  | subject t => simp [ClaimsOp.apply] at hs; subst hs; exact hi
+  | audience t => simp [ClaimsOp.apply] at hs; subst hs; exact hi
+  | expirationTime t => simp [ClaimsOp.apply] at hs; subst hs; exact hi
+  | notBefore t => simp [ClaimsOp.apply] at hs; subst hs; exact hi
+  | issuedAt t => simp [ClaimsOp.apply] at hs; subst hs; exact hi
+  | cwtId t => simp [ClaimsOp.apply] at hs; subst hs; exact hi
+  | claim k v =>
+    by_cases hg : claimReserved k = true
+    · simp [ClaimsOp.apply, hg] at hs
+    · simp [ClaimsOp.apply, hg] at hs; subst hs
+      exact app _ ⟨fun k' hk' => by simp at hk'; subst hk'; intro hc; exact hg ((claim_guard k).mpr hc), fun id hid => by simp at hid⟩
+  | textClaim n v =>
+    simp [ClaimsOp.apply] at hs; subst hs
+    exact app _ ⟨fun k' hk' => by simp at hk', fun id hid => by simp at hid⟩
+  | privateClaim id v =>
+    by_cases hp : id < -65536
+    · have := (claims_guards c 0 id v).2.2.2 hp
+      rw [this] at hs; cases hs
+      exact app _ ⟨fun k' hk' => by simp at hk', fun id' hid' => by simp at hid'; subst hid'; exact hp⟩
+    · obtain ⟨s, hs'⟩ := (claims_guards c 0 id v).2.2.1 hp
+      rw [hs'] at hs; cases hs
+
+/-- the plain setters of every other builder: the call replaces its field and leaves all others untouched; adders append. -/
+theorem setters_frame (s : CoseSignature) (sg : CoseSign) (m1 : CoseSign1) (mc : CoseMac) (m0 : CoseMac0) (e : CoseEncrypt) (e0 : CoseEncrypt0)
+    (r r2 : CoseRecipient) (pi : PartyInfo) (sp : SuppPubInfo) (kc : CoseKdfContext) (h : Header) (b : Bytes) (n : Nonce) (len : Int) (a : Nat) (sig : CoseSignature) :
+    SignatureOp.apply s (.unprotected h) = .next (.mk s.protected_ h s.signature) ∧
+    SignatureOp.apply s (.signature b) = .next (.mk s.protected_ s.unprotected b) ∧
+    SignOp.apply sg (.unprotected h) = .next { sg with unprotected := h } ∧
+    SignOp.apply sg (.payload b) = .next { sg with payload := some b } ∧
+    SignOp.apply sg (.addSignature sig) = .next { sg with signatures := sg.signatures ++ [sig] } ∧
+    Sign1Op.apply m1 (.unprotected h) = .next { m1 with unprotected := h } ∧
+    MacOp.apply mc (.unprotected h) = .next { mc with unprotected := h } ∧
+    MacOp.apply mc (.tag b) = .next { mc with tag := b } ∧
+    MacOp.apply mc (.payload b) = .next { mc with payload := some b } ∧
+    MacOp.apply mc (.addRecipient r2) = .next { mc with recipients := mc.recipients ++ [r2] } ∧
+    Mac0Op.apply m0 (.unprotected h) = .next { m0 with unprotected := h } ∧
+    Mac0Op.apply m0 (.tag b) = .next { m0 with tag := b } ∧
+    Mac0Op.apply m0 (.payload b) = .next { m0 with payload := some b } ∧
+    EncryptOp.apply e (.unprotected h) = .next { e with unprotected := h } ∧
+    EncryptOp.apply e (.ciphertext b) = .next { e with ciphertext := some b } ∧
+    EncryptOp.apply e (.addRecipient r2) = .next { e with recipients := e.recipients ++ [r2] } ∧
+    Encrypt0Op.apply e0 (.unprotected h) = .next { e0 with unprotected := h } ∧
+    Encrypt0Op.apply e0 (.ciphertext b) = .next { e0 with ciphertext := some b } ∧
+    RecipientOp.apply r (.unprotected h) = .next (.mk r.protected_ h r.ciphertext r.recipients) ∧
+    RecipientOp.apply r (.ciphertext b) = .next (.mk r.protected_ r.unprotected (some b) r.recipients) ∧
+    RecipientOp.apply r (.addRecipient r2) = .next (.mk r.protected_ r.unprotected r.ciphertext (r.recipients ++ [r2])) ∧
+    PartyOp.apply pi (.identity b) = .next { pi with identity := some b } ∧
+    PartyOp.apply pi (.nonce n) = .next { pi with nonce := some n } ∧
+    PartyOp.apply pi (.other b) = .next { pi with other := some b } ∧
+    SuppOp.apply sp (.keyDataLength len) = .next { sp with keyDataLength := len } ∧
+    SuppOp.apply sp (.other b) = .next { sp with other := some b } ∧
+    KdfOp.apply kc (.partyUInfo pi) = .next { kc with partyUInfo := pi } ∧
+    KdfOp.apply kc (.partyVInfo pi) = .next { kc with partyVInfo := pi } ∧
+    KdfOp.apply kc (.suppPubInfo sp) = .next { kc with suppPubInfo := sp } ∧
+    KdfOp.apply kc (.algorithm a) = .next { kc with algorithmId := .assigned a } ∧
+    KdfOp.apply kc (.addSuppPrivInfo b) = .next { kc with suppPrivInfo := kc.suppPrivInfo ++ [b] } := by
+  refine ⟨rfl, rfl, rfl, rfl, rfl, rfl, rfl, rfl, rfl, rfl, rfl, rfl, rfl, rfl, rfl, rfl, rfl, rfl, rfl, rfl, rfl, rfl, rfl, rfl, rfl, rfl, rfl, rfl, rfl, rfl, rfl⟩
+
+/-- non-vacuity: adding the same key operation twice leaves one entry; a smaller one goes in front. -/
+example : (runOps KeyOp.apply [.addKeyOp 2, .addKeyOp 1, .addKeyOp 2] newOkpKey 0).1 =
+    .next { newOkpKey with keyOps := [.assigned 1, .assigned 2] } := by
+  rfl
+
 /-- non-vacuity: iv then partial_iv leaves only the partial IV; value(7) panics, value(8) is appended. -/
 example : (runOps HeaderOp.apply [.iv [1], .partialIv [2]] Header.default 0).1 = .next (.mk none [] none [] [] [2] [] []) := by
   simp [runOps, HeaderOp.apply, Header.default, Header.setIv, Header.setPartialIv]
@@ -188,5 +404,13 @@ example : ∃ s, HeaderOp.apply Header.default (.value 7 .null) = .panic s := (h
 #print axioms claims_guards
 #print axioms constructors
 #print axioms key_types_named
+#print axioms runOps_inv
+#print axioms runOps_stops
+#print axioms header_rest_clean
+#print axioms key_add_op
+#print axioms key_clean
+#print axioms constructors_clean
+#print axioms claims_clean
+#print axioms setters_frame
 
 end Coset.Props.C19
